@@ -322,6 +322,36 @@ def single_reconfiguration_table(ctx, nd, rng):
         requests.append({'cls': 'Derivative', 'f': fname, 'n': b[1], 'method': b[0], 'order': b[2], 'x': x, 'step_ratio': None,
                          'history': ['call as %s' % (a,), 'set to %s' % (b,), 'call']})
         results.append(pack(val, info))
+    # round trips: one attribute set to another value and back again (with or without a call in between) leaves no trace
+    trips = []
+    for m in ('central', 'forward', 'backward', 'complex'):
+        for n in (1, 2, 3):
+            for o in (1, 2, 3, 4, 5):
+                others_m = [t for t in (REAL if m in REAL else ['complex', 'multicomplex']) if t != m]
+                for via in [('method', t) for t in others_m if not (t == 'multicomplex' and n > 2)] + \
+                        [('order', t) for t in (1, 2, 6) if t != o] + [('n', t) for t in (1, 2, 4) if t != n]:
+                    trips.append((m, n, o, via))
+    if not ctx.thorough:
+        trips = rng.sample(trips, 90)
+    for (m, n, o, (attr, other)) in trips:
+        fname = rng.choice(list(FUNCS))
+        x = rng.choice([0.5, 1.25, 2.0])
+        d = nd.Derivative(FUNCS[fname], n=n, method=m, order=o, full_output=True)
+        try:
+            with warnings.catch_warnings():
+                warnings.simplefilter('ignore')
+                setattr(d, attr, other)
+                if rng.random() < 0.5:
+                    d(x)
+                setattr(d, attr, {'method': m, 'n': n, 'order': o}[attr])
+                val, info = d(x)
+        except Exception as ex:
+            ctx.violation('a reconfigured object raised %r' % ex, configuration=[m, n, o], via=[attr, other], x=x)
+            continue
+        ctx.tried(('round-trip', m, n, o, attr, other, fname, x))
+        requests.append({'cls': 'Derivative', 'f': fname, 'n': n, 'method': m, 'order': o, 'x': x, 'step_ratio': None,
+                         'history': ['built as %s' % ((m, n, o),), 'set %s = %s' % (attr, other), 'set back', 'call']})
+        results.append(pack(val, info))
     if requests:
         fresh = fresh_eval(requests)
         for req, got, want in zip(requests, results, fresh):
